@@ -324,6 +324,12 @@ impl Supervisor {
 
         // Wait for the task to stop
         self.mbox_tx.closed().await;
+
+        // The task is gone now. If it had already exited before this call (an ancestor was
+        // stopped, or the runtime terminated), actors spawned on this handle since then were
+        // never told to stop: tell them, and wait for them like the task would have.
+        let _ = self.ctrl_tx.send(());
+        self.ctrl_tx.closed().await;
     }
 
     pub fn spawn<A>(&mut self, actor: A) -> JoinHandle<()>
